@@ -13,6 +13,7 @@ import os, re, shutil, subprocess, tempfile, itertools
 from concurrent.futures import ThreadPoolExecutor
 from vlib import common as C
 
+DRIVERS = ['Config']   # model driver files this check runs: scopes translator failures to the tables they (and the proofs) import
 TRUSTED = ['Rust std: env::var/set_var/args, str::split_once/replace/trim, BufRead::lines, iN::from_str (modelled in Rws/Config.lean)',
            'model abstraction: a panic inside std::env::set_var (NUL in a value) is named "std:env::set_var" on both sides',
            'translator/gens/config.py for the flag table, the defaults and the documented examples']
